@@ -25,8 +25,15 @@ ENTRY_FROM_VEC = "<%sEntry as core::convert::From<alloc::vec::Vec<%sRelation>>>:
 RELS_FROM_VEC = "<%sRelations as core::convert::From<alloc::vec::Vec<%sEntry>>>::from" % (PFX, PFX)
 
 
+SYM = True     # component texts are atoms standing for arbitrary IDENT-class words
+
+
 def S(x):
-    return symstr.lit(x)
+    return c14.S(x) if SYM else symstr.lit(x)
+
+
+def M(model):
+    return [[c10.symrel(r) for r in e] for e in model] if SYM else model
 
 
 def vc_value(op):
@@ -59,7 +66,7 @@ LAYOUTS = {
 def layout_tokens(layout):
     entries, style, trailing, svars = layout
     if style != "pipe-eol":
-        return relspec.field_tokens(entries, style, trailing, svars)
+        return relspec.field_tokens(entries, style, trailing, svars, sym=SYM)
     out = []
     for i, e in enumerate(entries):
         if i:
@@ -67,7 +74,7 @@ def layout_tokens(layout):
         for j, r in enumerate(e):
             if j:
                 out += [relspec.ws(" "), relspec.rt("PIPE"), relspec.rt("NEWLINE"), relspec.ws(" ")]
-            out += relspec.rel_tokens(r, "canonical")
+            out += relspec.rel_tokens(r, "canonical", SYM)
     return out
 
 
@@ -103,7 +110,7 @@ def make_relation(cx, st, r, how):
     """returns (Relation value, state)"""
     F, I, tm = cx.F, cx.I, cx.tm
     if how in ("parsed", "padded"):
-        toks = relspec.field_tokens([[r]], "canonical")
+        toks = relspec.field_tokens([[r]], "canonical", sym=SYM)
         if how == "padded":
             toks = [relspec.ws("  ")] + toks + [relspec.ws(" ")]
         rv, errs, s2, mod = db.parse_relations(F, toks, st=hirai.State({}, dict(st.mon), 0))
@@ -139,7 +146,7 @@ def make_relation(cx, st, r, how):
 def make_entry(cx, st, e, how):
     F, I, tm = cx.F, cx.I, cx.tm
     if how in ("parsed", "padded"):
-        toks = relspec.field_tokens([e], "canonical")
+        toks = relspec.field_tokens([e], "canonical", sym=SYM)
         if how == "padded":
             toks = [relspec.ws("  ")] + toks + [relspec.ws(" ")]
         rv, errs, s2, mod = db.parse_relations(F, toks, st=hirai.State({}, dict(st.mon), 0))
@@ -324,7 +331,8 @@ def root_text(cx, st):
     v = cx.I.deref_val(st, st.store[("T", "rels")])
     nid = cx.tm.unwrap(cx.I, st, v[2][0])[2]
     h = treemodel.heap_get(st)
-    return symstr.show(symstr.mk(cx.tm.text_of(h, nid))), nid
+    cx.last_value = symstr.mk(cx.tm.text_of(h, nid))
+    return symstr.show(cx.last_value), nid
 
 
 def entry_texts(cx, st, nid):
@@ -406,7 +414,7 @@ def run_history_(cx, C, F, lname, layout, ops, cells):
         model = m2
     text, nid = root_text(cx, st)
     cx.last_text = text
-    otoks = c14.lex_text(text, cells)
+    otoks = c14.lex_text(cx.last_value, cells)
     try:
         got, gsv = relspec.read_field(otoks) if otoks is not None else (None, None)
         err = None
@@ -414,12 +422,12 @@ def run_history_(cx, C, F, lname, layout, ops, cells):
         got, gsv, err = None, None, str(e)
     ok = C.ob("C11/wellformed", label, got is not None, "%r -> %r is not a well-formed field: %s" % (text0, text, err), sp)
     if ok:
-        C.ob("C11/model", label, got == model, "%r -> %r denotes %s, the list model has %s" % (text0, text, got, model), sp)
+        C.ob("C11/model", label, got == M(model), "%r -> %r denotes %s, the list model has %s" % (text0, text, got, model), sp)
         C.ob("C11/substvars", label, gsv == list(svars), "%r -> %r has substvars %s, expected %s" % (text0, text, gsv, list(svars)), sp)
         C.ob("C11/no-stray-separators", label, count_empty_entries(otoks) <= empties0, "%r -> %r has more empty entries (duplicated or dangling separators) than before" % (text0, text), sp)
         rels2, errs2, st2, mod2 = db.parse_relations(F, otoks, allow_substvar=bool(svars))
         C.ob("C11/strict-parse", label, rels2 is not None and errs2 == ("abs", "strvec", 0), "the lossless reader rejects %r" % text, F.fn(rp.PARSE_FN)["sp"])
-        if len(ops) == 1 and got == model:
+        if len(ops) == 1 and got == M(model):
             # untouched entries keep their text
             after = entry_texts(cx, st, nid)
             m_after, touched = apply_model([list(e) for e in entries if e], ops[0])
